@@ -900,3 +900,18 @@ mod tests {
         });
     }
 }
+
+#[cfg(nexosim_verif)]
+impl<T: ?Sized> Queue<T> {
+    /// Verification hook: raw `(enqueue_pos, dequeue_pos, stamps)`.
+    pub(super) fn verif_raw(&self) -> (usize, usize, Vec<usize>) {
+        (
+            self.enqueue_pos.load(Ordering::Relaxed),
+            self.dequeue_pos.load(Ordering::Relaxed),
+            self.buffer
+                .iter()
+                .map(|s| s.stamp.load(Ordering::Relaxed))
+                .collect(),
+        )
+    }
+}
